@@ -476,11 +476,75 @@ func checkForElse(w *World, r *Report) {
 				r.ok("R09.2", name, "body rendered only for a non-empty sequence", w.posOf(b.Pos()), "every path crosses the non-zero edge of a length test", true)
 			}
 		}
+		// measurements of the sequence: once its length has been taken (an iterable arm), the else
+		// branch may only follow a zero-length / nil / not-iterable edge; an arm that measures
+		// nothing (the value is not iterable at all) may render the else branch directly
+		var measures []ssa.Instruction
+		instrsOf(fn, func(in ssa.Instruction) {
+			c, ok := in.(*ssa.Call)
+			if !ok || !in.Pos().IsValid() {
+				return // the implicit len of a range loop has no position
+			}
+			if b, ok := c.Call.Value.(*ssa.Builtin); ok && b.Name() == "len" {
+				// lengths of the node's own lists are not measurements of the sequence
+				if _, f := originField(c.Call.Args[0], 0); f == "" {
+					measures = append(measures, in)
+				}
+				return
+			}
+			if f := calleeFunc(c); f != nil {
+				switch f.FullName() {
+				case "(reflect.Value).Len", "unicode/utf8.RuneCountInString", "unicode/utf8.RuneCount":
+					measures = append(measures, in)
+				}
+			}
+		})
+		reachesAvoiding := func(from ssa.Instruction, target ssa.Instruction) bool {
+			seen := map[*ssa.BasicBlock]bool{}
+			var walk func(b *ssa.BasicBlock) bool
+			walk = func(b *ssa.BasicBlock) bool {
+				if seen[b] {
+					return false
+				}
+				seen[b] = true
+				if b == target.Block() {
+					return true
+				}
+				for i, sc := range b.Succs {
+					if nothingEdge(b, i) {
+						continue
+					}
+					if walk(sc) {
+						return true
+					}
+				}
+				return false
+			}
+			if from.Block() == target.Block() {
+				return instrIndex(from) < instrIndex(target)
+			}
+			for i, sc := range from.Block().Succs {
+				if nothingEdge(from.Block(), i) {
+					continue
+				}
+				if walk(sc) {
+					return true
+				}
+			}
+			return false
+		}
 		for _, e := range elses {
-			if bad, path := existsPathAvoiding(fn, e, nil, nothingEdge); bad {
-				r.bad("R09.2", name, "else branch rendered only when nothing iterates", w.posOf(e.Pos()), "a path reaches the else-branch render without a nil / not-iterable / zero-length edge: "+strings.Join(path, " → "))
+			bad := ""
+			for _, m := range measures {
+				if reachesAvoiding(m, e) {
+					bad = w.posOf(m.Pos())
+					break
+				}
+			}
+			if bad != "" {
+				r.bad("R09.2", name, "else branch rendered only when nothing iterates", w.posOf(e.Pos()), "after the sequence was measured at "+bad+" a path reaches the else-branch render without a nil / not-iterable / zero-length edge")
 			} else {
-				r.ok("R09.2", name, "else branch rendered only when nothing iterates", w.posOf(e.Pos()), "every path crosses a nil / not-iterable / zero-length edge", true)
+				r.ok("R09.2", name, "else branch rendered only when nothing iterates", w.posOf(e.Pos()), "every path from a measurement of the sequence to the else branch crosses a nil / not-iterable / zero-length edge", true)
 			}
 		}
 	}
